@@ -14,7 +14,9 @@ pub const PAGE: usize = 4096;
 mod imp {
     use super::*;
 
-    const DATA_PAGES: usize = 2;
+    const DATA_PAGES: usize = 12;
+    /// bytes around a buffer that are (re)initialised for every episode
+    const HALO: usize = 768;
     const REGION: usize = (DATA_PAGES + 2) * PAGE;
     const POOL: usize = 96;
 
@@ -112,21 +114,26 @@ mod imp {
                     next_region += 1;
                     unsafe {
                         let data = self.base.add(r * REGION + PAGE);
-                        if poison == 1 {
-                            let mut off = 0;
-                            while off < DATA_PAGES * PAGE {
-                                let n = pattern.len().min(DATA_PAGES * PAGE - off);
-                                core::ptr::copy_nonoverlapping(pattern.as_ptr(), data.add(off), n);
-                                off += n;
-                            }
-                        } else {
-                            core::ptr::write_bytes(data, 0, DATA_PAGES * PAGE);
-                        }
                         let p = match b.place {
                             Place::Left => data,
                             Place::Right => data.add(DATA_PAGES * PAGE - len),
                             Place::Mid(k) => data.add(64 + (k as usize % 64)),
                         };
+                        // (re)initialise what surrounds the buffer: a fixed halo,
+                        // so that a moderate over-read sees episode-determined
+                        // bytes (determinism) at a bounded cost per episode
+                        let lo = (p as usize).saturating_sub(HALO).max(data as usize);
+                        let hi = ((p as usize) + len + HALO).min(data as usize + DATA_PAGES * PAGE);
+                        if poison == 1 {
+                            let mut off = lo;
+                            while off < hi {
+                                let n = pattern.len().min(hi - off);
+                                core::ptr::copy_nonoverlapping(pattern.as_ptr(), off as *mut u8, n);
+                                off += n;
+                            }
+                        } else {
+                            core::ptr::write_bytes(lo as *mut u8, 0, hi - lo);
+                        }
                         core::ptr::copy_nonoverlapping(b.bytes.as_ptr(), p, len);
                         self.placed.push((p as *const u8, len, r));
                     }
